@@ -583,3 +583,17 @@ package dawn
 //@ (assert (= (stamp now) (stamp seen)))
 //@ (assert (not (= now seen)))
 //@ >>>
+
+// ---------------------------------------------------------------- C04: one target per label
+// The runner identifies work by label string. The project hands out, for a label, exactly the target
+// registered under that label's own string - never the target of another label - so two runner
+// entries never share a target (each registration allocates its own runTarget).
+//@ func (*dawn.Project).unknownTarget
+//@   trusted
+//@   ensures result != nil
+//@ func (*dawn.Project).LoadTarget
+//@   uses (*label.Label).String variant function-of-fields
+//@   requires proj != nil && !holds(proj.m)
+//@   retassert registered-under-the-requested-label: result.1 == nil ==> (has(proj.targets, lstr4(l.Kind, l.Project, l.Package, l.Name)) && target == proj.targets[lstr4(l.Kind, l.Project, l.Package, l.Name)])
+//@   modifies heap
+
